@@ -67,6 +67,21 @@ CHECKS = {
              'independent copies.',
         note='byte equality for immutability, 1e-13 for aliased-vs-copied; D <= 7, P <= 3',
         ref='DESIGN.md section 4, C14'),
+    'C07': dict(
+        technique='property-based testing (Hypothesis): generated operand kinds/ranks/sizes with constructively regular base matrices vs convolution-of-NumPy references, residual identities, exact rational determinants and mpmath numerical differentiation',
+        text='One bucket per operation x rank pair x operand-kind combination (dot 27, outer 3, inv, solve 4, det, logdet, trace, expm): results compared with '
+             'the defining convolution of NumPy dot/outer per direction, A inv(A) = I and A X = B modulo t^D, exact Leibniz determinants over Fractions and '
+             'mpmath Taylor expansion of log|det A(t)| and expm(A(t)); different base matrices per direction, pivoting-forcing bases included.',
+        note='trusts NumPy/LAPACK for zeroth coefficients and mpmath (>= 50 digits, expm >= 150); tolerance 1e-12 (dot/outer), 1e-9, expm 1e-8; sizes <= 5, D <= 6, P <= 3; '
+             'solve with 1-D right-hand side and logdet with det <= 0 are outside the domain (declared by the code)',
+        ref='DESIGN.md section 4, C07; notes/C07.md'),
+    'C08': dict(
+        technique='property-based testing (Hypothesis): generated matrix curves (square/tall/wide, pivoting, exactly repeated eigenvalues splitting at a chosen order) vs validity predicates (defining equations modulo t^D via independent convolution products) and NumPy/SciPy zeroth coefficients',
+        text='For qr, qr_full, cholesky, lu/lu2/lu_factor, eigh (distinct and exactly repeated spectra with splitting at order 1..5 or never), eig (D <= 2) and svd: '
+             'the returned factors must satisfy the defining equations, orthogonality and triangularity at every order (both directions of the predicate) and their '
+             'zeroth coefficients must equal the NumPy/SciPy factorization the code wraps.',
+        note='validity predicates + NumPy/SciPy zeroth coefficients; tolerance 1e-8 relative to term magnitudes, gaps >= 0.3, sigma_min >= 0.2; sizes <= 5, D <= 6 (eig 2), P <= 3',
+        ref='DESIGN.md section 4, C08; notes/C08.md'),
 }
 
 NOT_BUILT = 'check not built yet in this session (planned, see DESIGN.md section 4)'
